@@ -13,23 +13,29 @@ business of the C proofs / the bounded harness bounded/hashes.py (C03, third and
   poly1305(r, s, data)  RFC 8439 2.5 / Bernstein's Poly1305-AES: ((sum c_i r^(q-i+1) mod 2^130-5) + s) mod 2^128, 16 bytes LE
   aes_block(key, block) AES forward function on one block (FIPS 197)
   chacha20_block0(key, nonce)   first 32 bytes of ChaCha20 key-stream block with counter 0 (RFC 8439 2.6)
-  mac_cmp(key, data)    the randomly keyed MAC / hash the verify() methods compare through (BLAKE2s-160 keyed with 16 random
-        bytes, SHA3-256 of secret || tag for KMAC).  THE ONE ASSUMED CRYPTOGRAPHIC FACT: for the drawn key it is
-        injective in `data` (collision probability 2^-160 / 2^-256); stated through a left inverse so that it stays
-        quantifier free.
+  THE ONE ASSUMED CRYPTOGRAPHIC FACT (two instances, see the `facts` below): the randomly keyed MAC / hash through which the
+        verify() methods compare tags (BLAKE2s-160 keyed with 16 fresh random bytes; SHA3-256 of secret || tag for KMAC) is
+        injective in the tag (collision probability 2^-160 / 2^-256); stated through a left inverse so that it stays quantifier free.
 """
 
 SIG = {
-    'keccak_stream': {'sort': 'bytes', 'uf': True, 'facts': ['n >= 0 ==> len(result) == n']},
+    'keccak_stream': {'sort': 'bytes', 'uf': True,
+                      'facts': ['n >= 0 ==> len(result) == n',
+                                # ASSUMED CRYPTOGRAPHIC FACT (a): SHA3-256 (capacity 64 bytes, 24 rounds, domain 0x06, first 32 bytes) is
+                                # injective -- KMAC.verify() compares SHA3-256(secret || tag) values, secret = 16 fresh random bytes
+                                '(cap == 64 and rounds == 24 and pad == 6 and pos == 0 and n == 32) ==> spec.hashprim.sha3_256_inv(result) == data']},
+    'sha3_256_inv': {'sort': 'bytes', 'uf': True},
     'md': {'sort': 'bytes', 'uf': True},
     'md_len': {'sort': 'int', 'uf': True, 'facts': ['result >= 1']},
-    'blake2': {'sort': 'bytes', 'uf': True, 'facts': ['digest_bytes >= 0 ==> len(result) == digest_bytes']},
-    'blake2_full': {'sort': 'bytes', 'uf': True, 'facts': ['len(result) == variant']},
+    'blake2': {'sort': 'bytes', 'uf': True,
+               'facts': ['digest_bytes >= 0 ==> len(result) == digest_bytes',
+                         # ASSUMED CRYPTOGRAPHIC FACT (b): BLAKE2s-160 keyed with 16 random bytes is injective in the data -- the
+                         # verify() methods of HMAC, Poly1305, BLAKE2b/s compare BLAKE2s-160(secret, tag) values
+                         '(variant == 32 and digest_bytes == 20 and len(key) == 16) ==> spec.hashprim.blake2s160_inv(key, result) == data']},
+    'blake2s160_inv': {'sort': 'bytes', 'uf': True},
     'poly1305': {'sort': 'bytes', 'uf': True, 'facts': ['len(result) == 16']},
     'aes_block': {'sort': 'bytes', 'uf': True, 'facts': ['len(result) == 16']},
     'chacha20_block0': {'sort': 'bytes', 'uf': True, 'facts': ['len(result) == 32']},
-    'mac_cmp': {'sort': 'bytes', 'uf': True, 'facts': ['spec.hashprim.mac_cmp_inv(key, result) == data']},
-    'mac_cmp_inv': {'sort': 'bytes', 'uf': True},
     'xor': {'sort': 'bytes', 'uf': True, 'facts': ['len(result) == len(a)']},
 }
 
@@ -50,10 +56,6 @@ def blake2(variant, digest_bytes, key, data):
     pass
 
 
-def blake2_full(variant, digest_bytes, key, data):
-    pass
-
-
 def poly1305(r, s, data):
     pass
 
@@ -66,11 +68,11 @@ def chacha20_block0(key, nonce):
     pass
 
 
-def mac_cmp(key, data):
+def sha3_256_inv(digest):
     pass
 
 
-def mac_cmp_inv(key, tag):
+def blake2s160_inv(key, digest):
     pass
 
 
